@@ -613,8 +613,15 @@ impl Transformer {
         if !orig_svg_attrs.contains_key("version") {
             new_svg_attrs.insert("version", "1.1");
         }
-        if !orig_svg_attrs.contains_key("xmlns") {
-            new_svg_attrs.insert("xmlns", "http://www.w3.org/2000/svg");
+        match orig_svg_attrs.get("xmlns") {
+            None => new_svg_attrs.insert("xmlns", "http://www.w3.org/2000/svg"),
+            Some(ns) if ns != "http://www.w3.org/2000/svg" => {
+                // neither real SVG nor an svgdx document; the output could not be SVG
+                return Err(SvgdxError::InvalidData(format!(
+                    "root <svg> element has a non-SVG namespace '{ns}'"
+                )));
+            }
+            _ => {}
         }
         if !orig_svg_attrs.contains_key("id") {
             if let Some(local_id) = &self.context.local_style_id {
